@@ -1,3 +1,4 @@
+import json
 """C17 — binning soundness; index files round-trip: file round-trip clauses (DESIGN.md §5 C17)."""
 import re
 
@@ -20,7 +21,7 @@ EXPLANATION = (
     " (R2, path form) in all six write_bins bodies no success exit is reachable once the absence edges of every test of `metadata` and the write_metadata call are removed: the pseudo-bin is written on every path on which metadata is present; (R6) reg2bin and reg2bins use the same coordinate convention (exactly one `- 1` on start and on end before the shifts); (R7) append-buffer discipline of the text index readers (crai, fai, tabix names): the rule that reports the genuine defect F14 (crai read_index), repaired in /repo."
     " (R8) optimize_chunks prunes by a per-chunk test of that chunk's end, never by a prefix cut or binary search over chunk ends in a list ordered by start."
     " (R9) Bin::add_chunk builds the merged chunk's end as the maximum of both ends (genuine defect F24, repaired)."
-    " (R10) no index reader takes a field from a single raw read() (shared with C12.R1 / C13.R4). (R11) the linear index is filled (update) and consulted (min_offset) with the same window function of a 1-based position, (p - 1) / 2^14.")
+    " (R10) no index reader takes a field from a single raw read() (shared with C12.R1 / C13.R4). (R11) the linear index is filled (update) and consulted (min_offset) with the same window function of a 1-based position, (p - 1) / 2^14. (R12) the CSI readers keep every bin's loffset whatever its value.")
 ASSUMPTIONS = ["field layout (order and widths) of the index files is pinned by the unit tests (one literal per field encoder/decoder)"]
 NOT_DECIDED = ["reg2bin ∈ reg2bins containment and optimize_chunks coverage for every geometry (pure interval arithmetic)",
                "byte layout equality of writer and reader beyond the pairing clauses above",
@@ -190,6 +191,33 @@ def run(ctx):
     ctx.rule("C17.R11", "A7 sibling agreement: the linear index is filled (update) and consulted (min_offset) with the same window function of "
                         "a 1-based position, (p - 1) / 2^14: a query-side window one too far prunes the chunk of a feature ending on a window's last base")
     linear_window_rule(ctx, "C17.R11")
+
+    ctx.rule("C17.R12", "A7 the CSI readers (sync and async) keep EVERY bin's loffset: the insert into the binned index is not control-dependent "
+                        "on the value of the loffset just read — 0 is the real offset of a bin whose first record sits at the start of the file, "
+                        "and dropping it makes min_offset prune chunks that a query must return")
+    n12 = 0
+    for k12, f12 in sorted(fb.fns.items()):
+        if not f12.blocks or not re.search(r"^noodles_csi::(r#async::)?io::reader::index::reference_sequences::bins::read_bins(::\{closure#0\})?$", k12):
+            continue
+        ins = [(b, c) for b, c in f12.calls() if re.search(r"indexmap::map::IndexMap<.*>::insert$|IndexMap::<K, V, S>::insert$", c.get("f") or "")
+               and "VirtualPosition" in (c.get("ga") or "") + (f12.locals[C.op_local(c["args"][0])] if c["args"] and C.op_local(c["args"][0]) is not None else "")]
+        if not ins:
+            continue
+        is_loff = R.mk_pred(r"read_u64_le$")
+        for b12, c12 in ins:
+            n12 += 1
+            ctx.saw_fn(f12)
+            guards = [g for g in C.dom_chain(f12, b12) if g != b12 and f12.blocks[g]["t"][0] == "sw" and R.derives_from_call(f12, f12.blocks[g]["t"][1], is_loff)
+                      and not re.search(r"Try>::branch|ControlFlow", json.dumps(C.switch_condition(f12, g) or ""))]
+            # a `?` on the read itself also switches on a value derived from the call: only comparisons count
+            guards = [g for g in guards if (C.switch_condition(f12, g) or ("",))[0] in ("cmp", "call", "not")]
+            if guards:
+                ctx.violation("C17.R12", "C17.R12/loffset-dropped-by-value/" + k12,
+                              "%s inserts a bin's loffset into the binned index only behind a test of that loffset: a bin whose first record "
+                              "is at virtual position 0 loses its entry, and the index read back answers queries with fewer chunks" % k12, f12.loc(guards[0]))
+            else:
+                ctx.ok("C17.R12", k12, "the loffset is stored whatever its value", f12.loc(b12))
+    ctx.floor("C17.R12", "binned-index inserts in the CSI readers (sync + async)", n12, 2)
 
     ctx.rule("C17.R4", "A7/A8 magic numbers are single constants used by reader and writer; BAI/tabix geometry is (14,5)")
     for name, (prefix, ckey, want) in FORMATS.items():
